@@ -2,6 +2,7 @@ import PandoraModel.Properties.C13
 import PandoraModel.Properties.C13Steps
 import PandoraModel.Properties.C13Util
 import PandoraModel.Properties.C13Median
+import PandoraModel.Properties.C13Bilateral
 import PandoraModel.Properties.C13Refinement
 import PandoraModel.Properties.C13CrossCheck
 import PandoraModel.Properties.C13MatchingCost
@@ -63,3 +64,8 @@ open Pandora.C13
 #print axioms pipeCone_documented
 #print axioms rightDisp_local
 #print axioms rightDisp_equivariant
+#print axioms bilateralKernel_congr
+#print axioms bilateralStep_local
+#print axioms bilateralStep_equivariant
+#print axioms bilateralFilterDisparity_is_bilateralStep
+#print axioms bilateral_crop_eq_whole
